@@ -235,6 +235,7 @@ func specReaderInput(extended bool) *Lay {
 
 func ruleWRd(c *Ctx) {
 	pEngine(c)
+	discoverConsumers(c)
 	if fn := c.P.Func("", "*Output", "ReadFrom"); fn != nil {
 		compareLayout(c, "W-rd", "Output.ReadFrom", fn, readerLayout(c, fn, nil), specOutput("p0"), nil)
 	} else {
@@ -354,11 +355,54 @@ func reducedPaths(c *Ctx, fn *ssa.Function) ([]redPath, error) {
 		}
 		return "hoisted:" + al.Comment
 	}
+	// inlineHelper: a consuming call to another method of the same receiver object (a part of
+	// the reader moved into a helper) contributes the helper's own events, its parameters
+	// replaced by the arguments. Only helpers with exactly one unconditional success path.
+	inlineHelper := func(call *ssa.Call, phi map[*ssa.Phi]ssa.Value) ([]string, bool) {
+		sc := call.Call.StaticCallee()
+		if sc == nil || sc.Blocks == nil || sc.Signature.Recv() == nil || len(fn.Params) == 0 || len(call.Call.Args) == 0 {
+			return nil, false
+		}
+		if _, ok := consumeIndex(call); !ok || call.Call.Args[0] != ssa.Value(fn.Params[0]) || sc == fn || c.inlineDepth > 2 {
+			return nil, false
+		}
+		c.inlineDepth++
+		ps, err := reducedPaths(c, sc)
+		c.inlineDepth--
+		if err != nil || len(ps) != 1 || len(ps[0].conds) != 0 {
+			return nil, false
+		}
+		var out []string
+		for _, e := range ps[0].events {
+			for i := range sc.Params {
+				if i == 0 || i >= len(call.Call.Args) {
+					continue
+				}
+				a := call.Call.Args[i]
+				if ph, ok := a.(*ssa.Phi); ok {
+					if ch, ok := phi[ph]; ok {
+						a = ch
+					}
+				}
+				ad := w.term(a)
+				if k, ok := a.(*ssa.Const); ok && k.Value != nil {
+					ad = k.Value.ExactString()
+				}
+				e = regexp.MustCompile(fmt.Sprintf(`\bp%d\b`, i)).ReplaceAllString(e, strings.ReplaceAll(ad, "$", "$$"))
+			}
+			out = append(out, e)
+		}
+		return out, true
+	}
 	blockEvents := func(b *ssa.BasicBlock, phi map[*ssa.Phi]ssa.Value) []string {
 		var ev []string
 		for _, ins := range b.Instrs {
 			switch x := ins.(type) {
 			case *ssa.Call:
+				if inl, ok := inlineHelper(x, phi); ok {
+					ev = append(ev, inl...)
+					continue
+				}
 				if d := describeCall(x, phi); d != "" {
 					ev = append(ev, d)
 					if sc := x.Call.StaticCallee(); sc != nil && funcName(sc) == "(*bt.VarInt).ReadFrom" && curEpoch != nil {
@@ -698,20 +742,25 @@ func ruleWRdTx(c *Ctx) {
 	}
 	// the extended marker written by the serialiser is what the reader's three tests recognise:
 	// VarInt(0) VarInt(0) followed by the big-endian 32-bit value 0xEF
-	if wfn := c.P.Func("", "*Tx", "toBytesHelper"); wfn != nil {
+	if wfn := c.P.Func("", "*Tx", "ExtendedBytes"); wfn != nil {
+		// the marker is the constant the extended serialiser emits between the version and the input count
 		marker := ""
-		for _, b := range wfn.Blocks {
-			for _, ins := range b.Instrs {
-				if sl, ok := ins.(*ssa.Slice); ok {
-					if al, ok := sl.X.(*ssa.Alloc); ok && al.Comment == "slicelit" {
-						l := newWEval(c.P, wfn).evalSlice(sl)
-						if l.K == "const" && len(l.S) == 12 {
-							marker = l.S
-						}
-					}
-				}
+		var find func(l *Lay)
+		find = func(l *Lay) {
+			if l == nil {
+				return
+			}
+			if l.K == "const" && len(l.S) == 12 && marker == "" {
+				marker = l.S
+			}
+			for _, it := range l.Items {
+				find(it)
+			}
+			for _, cs := range l.Cases {
+				find(cs.L)
 			}
 		}
+		find(evalWith(c, wfn, nil, nil))
 		c.Check(marker == "0000"+"000000ef", "W-rd", "extended-marker-agreement", wfn.Pos(), "writer emits 00 00 | 00 00 00 EF = VarInt(0) VarInt(0) BE32(0xEF), exactly what the reader tests",
 			"the serialiser's extended-format marker is "+marker+", the reader recognises 0000000000ef")
 	}
